@@ -103,4 +103,28 @@ func init() {
 		NotDecided:  "that a successful import records exactly the file's symbols",
 		Rules:       []func(*World){r17Import, ra4Symbols},
 	})
+	register(&Property{
+		ID:          "C28",
+		Explanation: "RS: the ok flag of experimental/parser.Parse is cleared by a condition which, evaluated over the whole Level domain, is true exactly for {ICE, Error}. RW: each stage entry (lexer.loop, parser.parse, ir.lower) defers Report.CatchICE(false, …) before anything but plain assignments, so panics become ICE diagnostics; the `for !X.Done()` driver loops of the lexer and parser call their progress guard first.",
+		NotDecided:  "absence of ICEs (RW turns them into diagnostics, it does not exclude them); that diagnostic spans lie inside the file",
+		Rules:       []func(*World){rsParse, rwICE},
+	})
+	register(&Property{
+		ID:          "C29",
+		Explanation: "RV: in lexer.loop every path from an increment of lexer.badBytes to the function's end passes a flush (flushUnrecognized/keyword/push); badBytes is written only by loop and the flush helper. RV2: every `return false` of lexPrelude on non-empty input must have pushed tokens (today's bail-outs do not: known findings).",
+		NotDecided:  "that pushed lengths sum to the cursor advance on every path (arithmetic); bracket fusion",
+		Rules:       []func(*World){rvLexer},
+	})
+	register(&Property{
+		ID:          "C38",
+		Explanation: "RY: the inline alphabet literal has 64 distinct bytes with sextet 63 = '.', maxInlined*6 < 32; encodeOutlined is reached only on the false edges of len(s) > maxInlined and strings.HasSuffix(s, \".\"); every field of intern.Table is a sync/atomic/syncx type and all methods have pointer receivers; in internSlow the log append precedes the id store and the poison store precedes the panic; writer and reader use the same id offset.",
+		NotDecided:  "correctness of the lock-free syncx.Log itself",
+		Rules:       []func(*World){ryIntern},
+	})
+	register(&Property{
+		ID:          "C41",
+		Explanation: "RZ (one clause): every panic site in internal/toposort is classified; the cycle panic in Sorter.push is reached from a state that depends only on the input graph, contradicting 'on cyclic input it still terminates and yields' (known finding).",
+		NotDecided:  "ordering of the yielded nodes; all trie clauses",
+		Rules:       []func(*World){rzToposort},
+	})
 }
